@@ -2,9 +2,9 @@
     Only statements here; proofs are in Base/Fmt.v, Proofs/Keys*.v, Proofs/Abi*.v.
     Format terms (Gen/KeysGen.v) and ABI schemas (Gen/AbiSchemaGen.v) are
     regenerated from the Go source on every run. *)
-From Teleport Require Import Base.Bytes Base.Outcome Base.Fmt Base.AbiSchema Gen.KeysGen Gen.AbiSchemaGen
+From Teleport Require Import Base.Bytes Base.Outcome Base.Fmt Base.AbiSchema Gen.KeysGen Gen.KeysIterGen Gen.AbiSchemaGen
   Model.Keys Model.Abi Model.EncodingCheck
-  Proofs.Keys Proofs.KeysParse Proofs.KeysExact Proofs.Abi Proofs.AbiRoundtrip Proofs.AbiInst Proofs.EncodingMonitor.
+  Proofs.Keys Proofs.KeysParse Proofs.KeysExact Proofs.KeysIter Proofs.Abi Proofs.AbiRoundtrip Proofs.AbiNormal Proofs.AbiInst Proofs.EncodingMonitor.
 Local Open Scope N_scope.
 
 (** * Store keys *)
@@ -203,6 +203,129 @@ Theorem C19_bsc_signer_key_roundtrip : forall h,
 Proof. exact bsc_signer_key_roundtrip. Qed.
 Print Assumptions C19_bsc_signer_key_roundtrip.
 
+(** * EVERY iterator of a client's prefix store is exact over the whole family universe
+
+    Universe = the key families a light client writes into its store
+    ([client_store_families]) with ALL valid arguments (all 2^128 binary
+    heights, whatever their bytes spell).  [visit_*] = what the loop of the Go
+    iterator does with one stored key: visited only under the literal prefix
+    handed to KVStorePrefixIterator, then the filter / parser of the loop body. *)
+
+(** WHICH prefix each Go iterator scans is regenerated from the source
+    (Gen/KeysIterGen.v); every regenerated prefix selects every key of its own
+    families and no key of any other — for ALL arguments (side condition
+    [regen_ok]: a closed Boolean on the regenerated terms) *)
+Theorem C19_regen_prefix_exact : forall fams l owns, regen_ok fams l owns = true ->
+  forall p own i f sf a, In (p, own) (combine (prefixes_of l) owns) -> nth_error fams i = Some (f, sf) ->
+    is_prefix p (render f a) = existsb (Nat.eqb i) own.
+Proof. exact regen_prefix_exact. Qed.
+Print Assumptions C19_regen_prefix_exact.
+
+(** the iterators of the xibc store: IterateConsensusStates, IterateClients, GetAllRelayers, GetAllPacketSendSeqs,
+    IteratePacketCommitment / Receipt / Acknowledgement — each visits exactly its own key families *)
+Theorem C19_xibc_iterators_exact : forall l own, In (l, own)
+    [ (iterprefix_clientkeeper_IterateConsensusStates, [5%nat; 6%nat]); (iterprefix_clientkeeper_IterateClients, [5%nat; 6%nat]);
+      (iterprefix_clientkeeper_GetAllRelayers, [8%nat]); (iterprefix_packetkeeper_GetAllPacketSendSeqs, [4%nat]);
+      (iterprefix_packetkeeper_IteratePacketCommitment, [2%nat]); (iterprefix_packetkeeper_IteratePacketReceipt, [0%nat]);
+      (iterprefix_packetkeeper_IteratePacketAcknowledgement, [1%nat]) ] ->
+  forall i f sf a, nth_error key_families i = Some (f, sf) ->
+    prefix_any (prefixes_of l) (render f a) = existsb (Nat.eqb i) own.
+Proof. exact xibc_iterators_exact. Qed.
+Print Assumptions C19_xibc_iterators_exact.
+
+(** ... and over whole stores: among the stored keys of the nine families of the
+    xibc store every keeper iterator visits exactly the keys of its own families *)
+Theorem C19_xibc_iteration_exact : forall l own, In (l, own)
+    [ (iterprefix_clientkeeper_IterateConsensusStates, [5%nat; 6%nat]); (iterprefix_clientkeeper_IterateClients, [5%nat; 6%nat]);
+      (iterprefix_clientkeeper_GetAllRelayers, [8%nat]); (iterprefix_packetkeeper_GetAllPacketSendSeqs, [4%nat]);
+      (iterprefix_packetkeeper_IteratePacketCommitment, [2%nat]); (iterprefix_packetkeeper_IteratePacketReceipt, [0%nat]);
+      (iterprefix_packetkeeper_IteratePacketAcknowledgement, [1%nat]) ] ->
+  forall ks, family_store_in key_families ks ->
+  forall k, In k (keys_with_prefixes (prefixes_of l) ks) <-> In k ks /\ exists i, In i own /\ family_key_in key_families i k.
+Proof. exact xibc_iteration_exact. Qed.
+Print Assumptions C19_xibc_iteration_exact.
+
+(** GetAllPacketCommitments: every key it visits is a commitment key and is read as the triple it was written for *)
+Theorem C19_commitments_read_back : forall ks, family_store_in key_families ks ->
+  forall k, In k (keys_with_prefixes (prefixes_of iterprefix_packetkeeper_IteratePacketCommitment) ks) ->
+    exists t, valid_triple_args t /\ k = packet_commitment_key t /\ iterate_hashes_parse k = Ok t.
+Proof. exact commitments_read_back. Qed.
+Print Assumptions C19_commitments_read_back.
+
+(** tendermint IterateProcessedTime hands out a stored key iff it is a processed-time key (family 2) *)
+Theorem C19_processed_time_iterator_exact : forall i f sf a,
+  nth_error client_store_families i = Some (f, sf) -> args_ok sf a = true ->
+  visit_processed_time (render f a) = if Nat.eqb i 2 then Got (render f a) else Skip.
+Proof. exact processed_time_iterator_exact. Qed.
+Print Assumptions C19_processed_time_iterator_exact.
+
+(** bsc / eth IterateConsensusStateAscending: exactly the consensus-state keys (family 1), each as its height *)
+Theorem C19_evm_consensus_iterator_exact : forall l,
+  In l [iterprefix_bsc_IterateConsensusStateAscending; iterprefix_eth_IterateConsensusStateAscending] ->
+  forall i f sf a, nth_error client_store_families i = Some (f, sf) -> args_ok sf a = true ->
+  visit_evm_consensus l (render f a) =
+    if Nat.eqb i 1 then Ok (Got {| rev_number := get_n a 0; rev_height := get_n a 1 |}) else Ok Skip.
+Proof. exact evm_consensus_iterator_exact. Qed.
+Print Assumptions C19_evm_consensus_iterator_exact.
+
+(** tendermint IterateConsensusStateAscending: exactly the iteration keys (family 3) *)
+Theorem C19_tm_iteration_iterator_exact : forall i f sf a,
+  nth_error client_store_families i = Some (f, sf) -> args_ok sf a = true ->
+  visit_tm_iteration (render f a) =
+    if Nat.eqb i 3 then Ok (Got {| rev_number := get_n a 0; rev_height := get_n a 1 |}) else Ok Skip.
+Proof. exact tm_iteration_iterator_exact. Qed.
+Print Assumptions C19_tm_iteration_iterator_exact.
+
+(** bsc GetRecentSigners / DeleteAllSigner: exactly the recent-signer keys (family 4) *)
+Theorem C19_bsc_signers_iterator_exact : forall l, In l [iterprefix_bsc_GetRecentSigners; iterprefix_bsc_DeleteAllSigner] ->
+  forall i f sf a, nth_error client_store_families i = Some (f, sf) -> args_ok sf a = true ->
+  visit_bsc_signers l (render f a) =
+    if Nat.eqb i 4 then Ok (Got {| rev_number := get_n a 0; rev_height := get_n a 1 |}) else Ok Skip.
+Proof. exact bsc_signers_iterator_exact. Qed.
+Print Assumptions C19_bsc_signers_iterator_exact.
+
+(** ExportMetadata (hence GetAllClientMetadata) on any store made of family keys:
+    exactly the metadata entries of the client type, and each once *)
+Theorem C19_tm_export_exact : forall ks, family_store ks ->
+  forall k, In k (tm_export_keys ks) <-> In k ks /\ (family_key 2 k \/ family_key 3 k).
+Proof. exact tm_export_exact. Qed.
+Print Assumptions C19_tm_export_exact.
+
+Theorem C19_bsc_export_exact : forall ks, family_store ks ->
+  forall k, In k (bsc_export_keys ks) <-> In k ks /\ (family_key 4 k \/ family_key 5 k).
+Proof. exact bsc_export_exact. Qed.
+Print Assumptions C19_bsc_export_exact.
+
+Theorem C19_eth_export_exact : forall ks, family_store ks ->
+  forall k, In k (eth_export_keys ks) <-> In k ks /\ (family_key 6 k \/ family_key 7 k).
+Proof. exact eth_export_exact. Qed.
+Print Assumptions C19_eth_export_exact.
+
+Theorem C19_export_nodup : forall ks, NoDup ks ->
+  NoDup (tm_export_keys ks) /\ NoDup (bsc_export_keys ks) /\ NoDup (eth_export_keys ks).
+Proof. intros ks N. repeat split; [apply tm_export_nodup | apply bsc_export_nodup | apply eth_export_nodup]; exact N. Qed.
+Print Assumptions C19_export_nodup.
+
+(** a key belongs to at most one family (so "family_key i k" above is unambiguous) *)
+Theorem C19_family_key_unique : forall i j k, family_key i k -> family_key j k -> i = j.
+Proof. exact family_key_unique. Qed.
+Print Assumptions C19_family_key_unique.
+
+(** packet keeper IteratePacketCommitmentByPath(src, dst): a commitment key is
+    visited iff it was written for exactly that source and destination; no key
+    of another family of the xibc store is visited *)
+Theorem C19_commitment_by_path_exact : forall s d t,
+  valid_chain_name s = true -> valid_chain_name d = true -> valid_triple t = true ->
+  is_prefix (commitment_path_prefix s d) (packet_commitment_key t) = bytes_eqb s (t_src t) && bytes_eqb d (t_dst t).
+Proof. exact commitment_by_path_exact. Qed.
+Print Assumptions C19_commitment_by_path_exact.
+
+Theorem C19_commitment_by_path_other_families : forall s d i f sf a,
+  nth_error key_families i = Some (f, sf) -> i <> 2%nat ->
+  is_prefix (commitment_path_prefix s d) (render f a) = false.
+Proof. exact commitment_by_path_other_families. Qed.
+Print Assumptions C19_commitment_by_path_other_families.
+
 (** * ABI encoding *)
 
 (** go-ethereum's decoder inverts the head/tail encoder for every list of typed values *)
@@ -253,6 +376,30 @@ Theorem C19_encode_injective : forall sc v w bz,
 Proof. exact encode_injective. Qed.
 Print Assumptions C19_encode_injective.
 
+(** ABIDecode on ANY accepted input (go-ethereum's decoder also accepts non-canonical
+    encodings): the result is a well-typed struct value IN the property's domain
+    (its strings are well-formed UTF-8), and it is normalised —
+    its canonical re-encoding decodes to the same value *)
+Theorem C19_decode_typed : forall sc bz v, decode sc bz = Ok v -> struct_val_ok sc v = true.
+Proof. exact decode_typed. Qed.
+Print Assumptions C19_decode_typed.
+
+Theorem C19_decode_in_domain : forall sc bz v, decode sc bz = Ok v -> strings_valid v = true.
+Proof. exact decode_strings_valid. Qed.
+Print Assumptions C19_decode_in_domain.
+
+Theorem C19_decode_normalises : forall sc bz v,
+  schema_ok sc = true -> decode sc bz = Ok v ->
+  exists bz', encode sc v = Ok bz' /\ (lenN bz' < two63 -> decode sc bz' = Ok v).
+Proof. exact decode_normalises. Qed.
+Print Assumptions C19_decode_normalises.
+
+(** re-encoding the decoded value returns the SAME bytes exactly when the input is canonical *)
+Theorem C19_reencode_same_iff_canonical : forall sc bz v, decode sc bz = Ok v ->
+  (encode sc v = Ok bz <-> exists w, struct_val_ok sc w = true /\ encode sc w = Ok bz /\ decode sc bz = Ok w).
+Proof. exact reencode_same_iff_canonical. Qed.
+Print Assumptions C19_reencode_same_iff_canonical.
+
 (** different packets have different commitments — or an explicit sha256 collision *)
 Theorem C19_commit_injective : forall (sha256 : bytes -> bytes) sc v w c,
   schema_ok sc = true -> struct_val_ok sc v = true -> strings_valid v = true ->
@@ -273,6 +420,10 @@ Theorem C19_monitor_sound : forall ty v bz, case_monitor (CAbi ty v 0 bz 0 v 0 b
 Proof. exact abi_monitor_sound. Qed.
 Print Assumptions C19_monitor_sound.
 
+Theorem C19_abiraw_monitor_sound : forall ty inp d r, case_monitor (CAbiRaw ty inp 0 d 0 r 0 d) = [].
+Proof. exact abiraw_monitor_sound. Qed.
+Print Assumptions C19_abiraw_monitor_sound.
+
 (** * Non-vacuity *)
 
 Example C19_nonvacuous_keys :
@@ -285,6 +436,22 @@ Example C19_nonvacuous_keys :
     = Got (B "eth", {| rev_number := 47; rev_height := 12032 |}).
 Proof. vm_compute. repeat split; reflexivity. Qed.
 Print Assumptions C19_nonvacuous_keys.
+
+(** the adversarial heights are in the theorems' domain: a consensus state at
+    revision 0x00002f70726f6365 ("..\/proce"), height 0x7373656454696d65
+    ("ssedTime") has a key that ENDS in "/processedTime" — and is skipped; the
+    processed time stored for the same height is handed out *)
+Example C19_nonvacuous_adversarial_height :
+  let h := {| rev_number := 52160002745189; rev_height := 8319104418270768485 |} in
+  valid_height h = true /\
+  has_suffix tm_KeyProcessedTime (consensus_state_key h) = true /\
+  visit_processed_time (consensus_state_key h) = Skip /\
+  visit_processed_time (tm_processed_time_key h) = Got (tm_processed_time_key h) /\
+  visit_evm_consensus iterprefix_bsc_IterateConsensusStateAscending (consensus_state_key h) = Ok (Got h) /\
+  tm_export_keys [client_state_key; consensus_state_key h; tm_processed_time_key h; tm_iteration_key h]
+    = [tm_processed_time_key h; tm_iteration_key h].
+Proof. vm_compute. repeat split; reflexivity. Qed.
+Print Assumptions C19_nonvacuous_adversarial_height.
 
 Example C19_nonvacuous_abi :
   let p := [FS (B "teleport"); FS (B "bsc"); FU 18446744073709551615; FS [xe2; x82; xac]; FB [x2f; x00]; FB []; FS []; FU 7] in
